@@ -31,6 +31,16 @@ CLAIMED['C14'] = dict(
          'text-preserving stub; explicit (start,end,duration) ranges are outside. ' + NOTE_COMMON,
     design='§5/C14')
 
+CLAIMED['C07'] = dict(
+    technique='bounded symbolic execution of the real time parser and formatters (CrossHair + z3) with regex match objects stubbed by symbolic-digit groups',
+    text='CrossHair runs BaseTimeParser.match_to_time (English configuration, real am/pm regexes) and the DateTimeFormatUtil time formatters / '
+         'to_pm / all_str_to_pm on symbolic h, m, s and reference dates; every (description, hour width, fields present) combination is a slice '
+         'and only fully confirmed slices count. Asserts the 24-hour conversion (12 am -> 00, 12 pm -> 12), TIMEX shape, the ampm comment exactly '
+         'for ambiguous hours, the value on the reference date, and that the second reading is exactly +12 h.',
+    note='The regex layer (which strings the English TimeRegex patterns accept and which match the engine prefers) is outside: the match object is a '
+         'stub exposing named groups. ' + NOTE_COMMON,
+    design='§5/C07')
+
 NOT_APPLICABLE = {
     'C18': 'ground equality of ~50 concrete generated files against concrete YAML: no quantified variable for a solver to range over; '
            'deciding it is executing the generator (whose dependency ruamel.yaml is absent from every usable interpreter)',
